@@ -24,6 +24,7 @@ type Program struct {
 	Contracts map[string]*Contract     // key -> contract
 	Patterns  []*Contract              // trusted contracts whose key ends in ".*"
 	UFuns     map[string]*UFun
+	Defines   map[string]*Define
 	LoadErrs  []string
 	// globals stored to outside package init
 	MutableGlobals map[*ssa.Global]bool
@@ -85,7 +86,7 @@ func Load(repoDir string, patterns []string) (*Program, error) {
 	if err != nil {
 		return nil, err
 	}
-	p := &Program{RepoDir: repoDir, Pkgs: pkgs, Funcs: map[string]*ssa.Function{}, Contracts: map[string]*Contract{}, UFuns: map[string]*UFun{}, MutableGlobals: map[*ssa.Global]bool{}}
+	p := &Program{RepoDir: repoDir, Pkgs: pkgs, Funcs: map[string]*ssa.Function{}, Contracts: map[string]*Contract{}, UFuns: map[string]*UFun{}, Defines: map[string]*Define{}, MutableGlobals: map[*ssa.Global]bool{}}
 	for _, pk := range pkgs {
 		for _, e := range pk.Errors {
 			p.LoadErrs = append(p.LoadErrs, e.Error())
@@ -104,6 +105,9 @@ func Load(repoDir string, patterns []string) (*Program, error) {
 	}
 	for f := range ssautil.AllFunctions(prog) {
 		if f.Blocks == nil {
+			continue
+		}
+		if strings.HasPrefix(f.Synthetic, "wrapper for") || strings.HasPrefix(f.Synthetic, "bound method wrapper") || strings.HasPrefix(f.Synthetic, "thunk for") {
 			continue
 		}
 		p.Funcs[FuncKey(f)] = f
@@ -138,6 +142,15 @@ func Load(repoDir string, patterns []string) (*Program, error) {
 }
 
 func (p *Program) addSpecs(sf *SpecFile) error {
+	for _, d := range sf.Defines {
+		if _, dup := p.Defines[d.Name]; dup {
+			return fmt.Errorf("%s:%d: duplicate define %s", d.File, d.Line, d.Name)
+		}
+		p.Defines[d.Name] = d
+	}
+	for _, u := range sf.UFuns {
+		p.UFuns[u.Name] = u
+	}
 	for _, c := range sf.Contracts {
 		if strings.HasSuffix(c.Key, ".*") {
 			p.Patterns = append(p.Patterns, c)
